@@ -73,22 +73,28 @@ macro_rules! impl_parse {
                 let mut $out = Self::default();
                 loop {
                     let key: syn::Ident = $input.call(syn::ext::IdentExt::parse_any)?;
-                    match &*key.to_string() {
-                        $($k => $e,)*
-                        #[allow(unreachable_patterns)]
-                        x => {
-                            if cfg!(not(feature = "no-serde-warnings")) {
-                                let tokens = crate::attr::skip_until_next_comma($input);
+                    // a supported key written in a form ts-rs cannot read (`rename(serialize = "..")`)
+                    // is skipped like an unknown key, it does not invalidate the keys next to it
+                    let parsed = (|| -> syn::Result<bool> {
+                        Ok(match &*key.to_string() {
+                            $($k => { $e; true },)*
+                            #[allow(unreachable_patterns)]
+                            _ => false,
+                        })
+                    })();
+                    if !matches!(parsed, Ok(true)) {
+                        let x = key.to_string();
+                        if cfg!(not(feature = "no-serde-warnings")) {
+                            let tokens = crate::attr::skip_until_next_comma($input);
 
-                                crate::utils::warning::print_warning(
-                                    "failed to parse serde attribute",
-                                    format!("{x} {tokens}"),
-                                    "ts-rs failed to parse this attribute. It will be ignored.",
-                                )
-                                .unwrap();
-                            } else {
-                                crate::attr::skip_until_next_comma($input);
-                            }
+                            crate::utils::warning::print_warning(
+                                "failed to parse serde attribute",
+                                format!("{x} {tokens}"),
+                                "ts-rs failed to parse this attribute. It will be ignored.",
+                            )
+                            .unwrap();
+                        } else {
+                            crate::attr::skip_until_next_comma($input);
                         }
                     }
 
